@@ -201,7 +201,7 @@ func runBundle(c bundleCase) (outcome string, changes []change, out []verdict) {
 	}
 	outcome = "refused:" + codeOf(err)
 	if !isCoded(err) {
-		out = append(out, verdict{kBunUncoded, fmt.Sprintf("uncoded error: %v", err)})
+		out = append(out, verdict{uncodedKey(kBunUncoded, err), fmt.Sprintf("uncoded error: %v", err)})
 	}
 	if entriesLeft > 0 {
 		out = append(out, verdict{kBunLeft, fmt.Sprintf("refused (%s) but the manifest has %d entries", codeOf(err), entriesLeft)})
